@@ -432,6 +432,20 @@ Section Proofs.
     intros L1 L2 D E. rewrite !store_structure in E. apply app_inv_head in E.
     apply app_eq_len in E as [E _]; [contradiction|congruence].
   Qed.
+
+  (** Same data under the same key: the stored bytes repeat exactly when the nonce repeats.  So
+      a nonce source that returns to a value it had before - because the generator, the clock, the
+      counter or the process it reads were in the same state - repeats the stored bytes, and
+      nothing else does. *)
+  Lemma same_store_iff_same_nonce c km n1 n2 w :
+    length n1 = NONCE_SIZE -> length n2 = NONCE_SIZE ->
+    (store c km n1 w = store c km n2 w <-> n1 = n2).
+  Proof.
+    intros L1 L2. split.
+    - intros E. destruct (list_eq_dec N.eq_dec n1 n2) as [|D]; [assumption|].
+      exfalso. exact (fresh_store c km n1 n2 w w L1 L2 D E).
+    - intros ->. reflexivity.
+  Qed.
 End Proofs.
 
 (** * Name space: pass-through. *)
